@@ -51,14 +51,16 @@ func workloads(nosync bool) []Workload {
 	c := func(cc int) Config {
 		return Config{Backing: "store", MinMergePct: 100, Concern: cc, NoSync: nosync, VFS: true, MaxSegs: 2, Mult: 2}
 	}
+	lv := c(1) // leveled compaction that really reaches a partial (in-place) compaction with these batch sizes
+	lv.CompactPct = 0.99
 	return []Workload{
 		{"W-a: three appending rounds", c(0), alpha, []string{"B0", "M", "P", "B1", "M", "P", "B2", "M", "P"}},
 		{"W-b: forced full compaction every round", c(2), alpha, []string{"B0", "M", "P", "B1", "M", "P", "B2", "M", "P"}},
-		{"W-c: five rounds, leveled compaction (partial then full)", c(1), alpha, []string{"B0", "M", "P", "B1", "M", "P", "B2", "M", "P", "B3", "M", "P", "B4", "M", "P"}},
+		{"W-c: five rounds, leveled compaction (three appends, a partial compaction, then a full one)", lv, alpha, []string{"B0", "M", "P", "B2", "M", "P", "B0", "M", "P", "B2", "M", "P", "B2", "M", "P"}},
 		{"W-d: two rounds, revert to the first, one more round", c(0), alpha, []string{"B0", "M", "P", "B1", "M", "P", "V1", "B3", "M", "P"}},
 		{"W-e: three appending rounds with a child collection", c(0), childAlpha, []string{"B0", "M", "P", "B1", "M", "P", "B2", "M", "P"}},
-		{"W-f: leveled compaction, history ends right after a partial compaction (four rounds)", c(1), alpha, []string{"B0", "M", "P", "B1", "M", "P", "B2", "M", "P", "B3", "M", "P"}},
-		{"W-g: leveled compaction, three rounds", c(1), alpha, []string{"B0", "M", "P", "B1", "M", "P", "B2", "M", "P"}},
+		{"W-f: leveled compaction, history ends right after a partial compaction (four rounds)", lv, alpha, []string{"B0", "M", "P", "B2", "M", "P", "B0", "M", "P", "B2", "M", "P"}},
+		{"W-g: leveled compaction, partial compaction in the fifth round", lv, alpha, []string{"B0", "M", "P", "B2", "M", "P", "B0", "M", "P", "B0", "M", "P", "B1", "M", "P"}},
 	}
 }
 
@@ -680,10 +682,10 @@ func checkC05(prop, tier string) int {
 	}
 	var metas []meta
 	modes := []bool{false}
-	wlIdx := []int{0, 1, 3}
+	wlIdx := []int{0, 1, 2, 3, 5}
 	if tier == "thorough" {
 		modes = []bool{false, true}
-		wlIdx = []int{0, 1, 2, 3, 4}
+		wlIdx = []int{0, 1, 2, 3, 4, 5, 6}
 	} else {
 		// quick: the NoSync (process-kill) model for the compaction workload only
 		jobs = append(jobs, Job{Kind: "c05", Data: mustJSON(c05Job{WL: 1, NoSync: true, From: 0, To: 1 << 30})})
